@@ -514,6 +514,10 @@ pub fn c14_cases(quick: bool) -> Vec<SCase> {
             push(&mut out, vec![G::Dfs(vec![G::Conde(vec![vec![a.clone()], vec![b.clone()]]), c.clone()])], 2, 50, true);
             // loop{} as a prefix under take: answers repeat, so only a bounded prefix is judged
             push(&mut out, vec![G::Anyo(vec![G::Conde(vec![vec![a.clone()], vec![b.clone()]])])], 2, 6, false);
+            // a loop body of several goals, as separate clauses and as one bracketed clause: every
+            // pass runs the whole body
+            push(&mut out, vec![G::Anyo(vec![G::Conde(vec![vec![a.clone()], vec![b.clone()]]), c.clone()])], 2, 6, false);
+            push(&mut out, vec![G::Anyo(vec![G::Conj(vec![G::Conde(vec![vec![a.clone()], vec![b.clone()]]), c.clone()])])], 2, 6, false);
         }
     }
     // (3) nested structures and relation calls
